@@ -57,6 +57,11 @@ def write_xlsx(sheets, names=None):
         for coord, v in cells.items():
             ws[coord] = v
     for name, target in (names or {}).items():
+        if isinstance(name, tuple):
+            # (sheet title, name): a name defined for that sheet only
+            wb[name[0]].defined_names[name[1]] = DefinedName(
+                name[1], attr_text=target)
+            continue
         wb.defined_names[name] = DefinedName(name, attr_text=target)
     _N[0] += 1
     path = os.path.join(tmpdir(), 'wb_%d_%d.xlsx' % (os.getpid(), _N[0]))
